@@ -81,6 +81,9 @@ def C02(tier):
         # lanes beyond the usual small-array thresholds of sorting code (120..200 elements)
         dict(name="long_lanes", family="sort", trace="Trace_Sort", trace_constants=FIX, profile="dev", chunk=40,
              gen=dict(count=(240, 2400), params={"kinds": "select/bulk", "oor_den": "0", "long": "1"}), params={"frame": "1"}),
+        # runs of 70..260 equal values: recursion as deep as the run is long whatever the pivots are
+        dict(name="deep_recursion", family="sort", trace="Trace_Sort", trace_constants=FIX, profile="dev", chunk=40,
+             gen=dict(count=(200, 2000), params={"kinds": "select/bulk", "oor_den": "0", "deep": "1"})),
     ]
     return dict(models=models, stages=stages, nontrivial=sort_nontrivial, exhaustive=True,
                 rule="every complete behaviour (pattern, index or request list, pivot sequence) of MC_Select_emit / MC_Bulk_emit "
@@ -222,8 +225,14 @@ def C18(tier):
              gen=dict(count=(2500, 25000), params={"pair": "1"})),
         dict(name="select_pairs", family="sort", trace="Trace_Sort", trace_constants=FIX, profile="dev", chunk=3000,
              gen=dict(count=(2500, 15000), params={"kinds": "bulkpair", "oor_den": "0"})),
+        # long runs of equal values: the bulk recursion goes as deep as the run is long whatever the pivots are
+        dict(name="select_pairs_deep", family="sort", trace="Trace_Sort", trace_constants=FIX, profile="dev", chunk=100,
+             gen=dict(count=(300, 3000), params={"kinds": "bulkpair", "oor_den": "0", "deep": "1", "reps": "0"})),
+        dict(name="quantile_pairs_deep", family="quant", trace="Trace_Quant", profile="dev", chunk=100,
+             gen=dict(count=(300, 3000), params={"pair": "1", "deep": "1"})),
         num_stage("moments_and_axis_forms", "c06/c07", (3000, 30000)),
         num_stage("moments_overflowing_sums", "c18big", (300, 3000)),
+        num_stage("axis_forms_unusual_weights", "c18w", (1500, 10000)),
     ]
     return dict(models=[quantile_models(tier)[k] for k in (0, 1, 3)] + [
                     dict(module="Bulk", name="MC_Bulk_vs_single",
@@ -240,6 +249,8 @@ def C19(tier):
     stages = [
         dict(name="laws_random", family="quant", trace="Trace_Quant", profile="dev",
              gen=dict(count=(2500, 25000), params={"kinds": "qlaws"})),
+        dict(name="laws_deep_recursion", family="quant", trace="Trace_Quant", profile="dev", chunk=50,
+             gen=dict(count=(200, 2000), params={"kinds": "qlaws", "deep": "1"})),
     ]
     return dict(models=quantile_models(tier)[:3], stages=stages, nontrivial=quant_nontrivial, exhaustive=False,
                 rule="groups of calls on one lane: all five strategies x an ascending q grid (every k/(N-1) and every half-way point with "
